@@ -50,6 +50,22 @@ def r_eq_form(ck: Checker) -> None:
     body = [ast.fix_missing_locations(Ren().visit(copy.deepcopy(st))) for st in strip_casts(f.node.body)]
     loop_info: dict[str, object] = {}
 
+    # a positive pattern: the origins below the two operands are compared as unordered / de-duplicated / re-ordered collections
+    def bag(e: ast.expr) -> str | None:
+        if isinstance(e, ast.SetComp):
+            return "a set"
+        if isinstance(e, ast.Call) and dotted(e.func) in ("set", "frozenset", "sorted", "Counter", "collections.Counter") and e.args:
+            return f"{dotted(e.func)}(...)"
+        return None
+
+    for c in [n for st in body for n in ast.walk(st) if isinstance(n, ast.Compare) and len(n.ops) == 1 and isinstance(n.ops[0], (ast.Eq, ast.NotEq))]:
+        l_, r_ = c.left, c.comparators[0]
+        if bag(l_) and bag(r_) and ".origin" in norm(l_) and ".origin" in norm(r_) and any(isinstance(x, ast.Call) and isinstance(x.func, ast.Attribute)
+                                                                                          and x.func.attr in ("dfs", "bfs") for x in ast.walk(c)):
+            ck.violation("R-EQ-FORM", f, c, "_eq_fn compares the origins position by position",
+                         construct=f"_eq_fn compares {bag(l_)} of the descendants' origins of each operand: two trees whose origins are swapped between positions (or repeated) are equal")
+            return
+
     def analyse_positions(it: ast.expr, tg: ast.expr, test: ast.expr, where: ast.AST, differ_means_true: bool) -> bool:
         """Checks the iteration source (zip of full traversals of both operands) and the per-position test.
         ``differ_means_true``: the test is true when the two origins at a position differ."""
@@ -294,6 +310,8 @@ def run(ck: Checker) -> None:
     ck.guard("R-HASH-CONST", lambda: r_hash_const(ck))
     ck.guard("R-ORIGIN-EQ", lambda: r_origin_eq(ck))
     ck.guard("R-PRESENCE", lambda: T.r_presence(ck))
+    from .c05 import r_traversals
+    ck.guard("R-WORKLIST", lambda: r_traversals(ck))  # "every position" is what the zipped traversals visit
     ck.guard("R-ENUM-SHAPE", lambda: T.r_enum_shape(ck))
     ck.require_count("R-EQ-FORM", 2)
     ck.require_count("R-FULLTRAV", 1)
